@@ -3,13 +3,13 @@
 // signature push occurs in the script code (FindAndDelete).  Written from the BIPs; included by spec_step.h.
 #pragma once
 struct SpecSigOracles {
-    bool ecdsa_ok[24];          // verdict of the i-th ECDSA verification requested
+    bool ecdsa_ok[VERIF_ORACLE_N];          // verdict of the i-th ECDSA verification requested
     bool schnorr_ok; int schnorr_err;
     bool lows_ok;
-    int fad_result[24];         // occurrences removed by the i-th FindAndDelete
+    int fad_result[VERIF_ORACLE_N];         // occurrences removed by the i-th FindAndDelete
     bool mock_on; sbytes mock_sig, mock_key;   // --pretend-valid: one listed pair S:P
 };
-struct SpecSigUse { int ecdsa_calls, schnorr_calls, fad_calls; sbytes ecdsa_sig[24], ecdsa_key[24]; sbytes schnorr_sig, schnorr_key; int64_t weight; };
+struct SpecSigUse { int ecdsa_calls, schnorr_calls, fad_calls; sbytes ecdsa_sig[VERIF_ORACLE_N], ecdsa_key[VERIF_ORACLE_N]; sbytes schnorr_sig, schnorr_key; int64_t weight; };
 
 // BIP66: strict DER with one trailing hash-type byte
 static inline bool spec_valid_der(const sbytes& sig) {
